@@ -92,14 +92,14 @@ def judgeOutcome (thrown : List String) (st : JSt) (tag text : String) : List St
   -- a completed evaluation that changed command_giver itself (enable_commands, logged as `say set-cg`) keeps it
   let cgLegit := o.segs.contains "say set-cg" && o.segs.contains "done 1"
   let keys := (alwaysFields ++ otherFields.filter (fun k => !st.exempt.contains k)).filter (fun k => !(k == "cg" && cgLegit))
-  let regBad := keys.filterMap (fun k =>
+  let regBad := if st.base.isEmpty then [] else keys.filterMap (fun k =>
     if field fs k == field st.base k then none
     else some s!"restore {tag} {k} before={field st.base k} after={field fs k}")
   let probeBad :=
-    if machinePart o.probe != machinePart st.probe0 then [s!"probe {tag} differs: '{o.probe}'"] else []
+    if st.probe0 != "" && machinePart o.probe != machinePart st.probe0 then [s!"probe {tag} differs: '{o.probe}'"] else []
   let installed := o.segs.any (fun s => s.startsWith "say did-")
   let sideBad :=
-    if sidePart o.probe != sidePart st.probe0 && !installed then
+    if st.probe0 != "" && sidePart o.probe != sidePart st.probe0 && !installed then
       [s!"half-install {tag} side state '{sidePart o.probe}' without a completed install"] else []
   let crashBad := if o.segs.any (fun s => s.startsWith "crash") then [s!"crash {tag} {o.segs.getLastD ""}"] else []
   -- the LPC side compares this_player() before and after every catch that caught something
